@@ -5,7 +5,7 @@
    monotone in the exponent for bases >= 1; both facts are proved for the
    executable surrogate pow_s used by the correspondence check. *)
 From Coq Require Import QArith Qminmax List Bool.
-From WSI Require Import Vqip CoreLaws Decay.
+From WSI Require Import Vqip Pow CoreLaws Decay.
 From WSI.gen Require Import GenCore.
 Import ListNotations.
 Open Scope Q_scope.
@@ -55,6 +55,10 @@ Theorem C11_n_closeouts_bounds : forall pow, pow_positive pow -> forall n t d Ts
   decays_ok d -> 0 <= get (adds t) k ->
   0 <= get (adds (fst (decay_n pow n t d Ts))) k <= get (adds t) k.
 Proof. exact decay_n_bounds. Qed.
+Theorem C11_decay_does_not_modify_its_argument :
+  (forall a d T, gen_generic_temperature_decay_after a d T = a) /\
+  (forall a d T, gen_generic_temperature_decay_c_after a d T = a).
+Proof. exact (conj decay_pure decay_c_pure). Qed.
 (* the oracle hypotheses hold for the executable instance *)
 Theorem C11_surrogate_pow_ok :
   pow_positive pow_s /\ pow_monotone pow_s /\ (forall b z, pow_s b (inject_Z z) == Qpower b z).
@@ -76,3 +80,4 @@ Print Assumptions C11_concentration_form.
 Print Assumptions C11_n_closeouts_partition.
 Print Assumptions C11_n_closeouts_bounds.
 Print Assumptions C11_surrogate_pow_ok.
+Print Assumptions C11_decay_does_not_modify_its_argument.
